@@ -536,26 +536,46 @@ func derives(v ssa.Value, src func(ssa.Value) bool, o flowOpts) bool {
 	return walk(v, 0)
 }
 
-// storesTo returns the values stored directly to an Alloc (in its function
-// and, when captured, in closures).
+// storesTo returns the values stored to an Alloc — directly, or into any
+// field/element of it (struct and array literals) — in its function and,
+// when captured, in closures.
 func storesTo(a *ssa.Alloc) []ssa.Value {
 	var out []ssa.Value
-	for _, r := range *a.Referrers() {
-		switch s := r.(type) {
-		case *ssa.Store:
-			if s.Addr == a {
-				out = append(out, s.Val)
-			}
-		case *ssa.MakeClosure:
-			// captured: find stores through the matching free var
-			fn := s.Fn.(*ssa.Function)
-			for i, b := range s.Bindings {
-				if b == a && i < len(fn.FreeVars) {
-					out = append(out, storesToFreeVar(fn.FreeVars[i])...)
+	var viaAddr func(addr ssa.Value, depth int)
+	viaAddr = func(addr ssa.Value, depth int) {
+		refs := addr.Referrers()
+		if refs == nil || depth > 4 {
+			return
+		}
+		for _, r := range *refs {
+			switch s := r.(type) {
+			case *ssa.Store:
+				if s.Addr == addr {
+					out = append(out, s.Val)
+				}
+			case *ssa.FieldAddr:
+				if s.X == addr {
+					viaAddr(s, depth+1)
+				}
+			case *ssa.IndexAddr:
+				if s.X == addr {
+					viaAddr(s, depth+1)
+				}
+			case *ssa.MakeClosure:
+				if addr != ssa.Value(a) {
+					continue
+				}
+				// captured: find stores through the matching free var
+				fn := s.Fn.(*ssa.Function)
+				for i, b := range s.Bindings {
+					if b == a && i < len(fn.FreeVars) {
+						out = append(out, storesToFreeVar(fn.FreeVars[i])...)
+					}
 				}
 			}
 		}
 	}
+	viaAddr(a, 0)
 	return out
 }
 
@@ -700,7 +720,21 @@ func describeD(v ssa.Value, d int) string {
 	case *ssa.MakeInterface:
 		return describeD(t.X, d+1)
 	case *ssa.Slice:
-		return describeD(t.X, d+1) + "[" + describeD(t.Low, d+1) + ":" + describeD(t.High, d+1) + "]"
+		if a, ok := t.X.(*ssa.Alloc); ok && a.Comment == "varargs" {
+			var es []string
+			for _, s := range storesTo(a) {
+				es = append(es, describeD(s, d+1))
+			}
+			return strings.Join(es, ", ")
+		}
+		lo, hi := "", ""
+		if t.Low != nil {
+			lo = describeD(t.Low, d+1)
+		}
+		if t.High != nil {
+			hi = describeD(t.High, d+1)
+		}
+		return describeD(t.X, d+1) + "[" + lo + ":" + hi + "]"
 	case *ssa.IndexAddr:
 		return describeD(t.X, d+1) + "[" + describeD(t.Index, d+1) + "]"
 	case *ssa.Index:
@@ -1040,4 +1074,61 @@ func unitStep(v ssa.Value) (int64, bool) {
 		}
 	}
 	return 0, false
+}
+
+// ---------------------------------------------------------------------------
+// Loops
+
+// naturalLoop returns the blocks of the natural loop headed by h: blocks
+// dominated by h from which h is reachable (plus h).  Empty if h heads no loop.
+func naturalLoop(h *ssa.BasicBlock) map[*ssa.BasicBlock]bool {
+	out := map[*ssa.BasicBlock]bool{}
+	for _, b := range h.Parent().Blocks {
+		if b == h {
+			continue
+		}
+		if h.Dominates(b) && blockReaches(b, h) {
+			out[b] = true
+		}
+	}
+	if len(out) > 0 || blockReaches(h, h) {
+		out[h] = true
+	}
+	return out
+}
+
+// loopOverField finds the header block of a loop whose continuation test
+// compares an index with len(x) where x is loaded from a field whose path
+// ends in fieldSuffix.  Returns the header and its If.
+func loopOverField(fn *ssa.Function, fieldSuffix string) (*ssa.BasicBlock, *ssa.If) {
+	for _, i := range ifs(fn) {
+		b, ok := i.Cond.(*ssa.BinOp)
+		if !ok || b.Op != token.LSS {
+			continue
+		}
+		c, ok := b.Y.(*ssa.Call)
+		if !ok || calleeName(&c.Call) != "builtin.len" {
+			continue
+		}
+		if !derives(c.Call.Args[0], func(v ssa.Value) bool { return readsField(v, fieldSuffix) }, flowOpts{}) {
+			continue
+		}
+		if len(naturalLoop(i.Block())) > 0 {
+			return i.Block(), i
+		}
+	}
+	return nil, nil
+}
+
+// loopExitEdges returns the edges leaving the loop (from a loop block to a non-loop block).
+func loopExitEdges(loop map[*ssa.BasicBlock]bool) []edge {
+	var out []edge
+	for b := range loop {
+		for i, s := range b.Succs {
+			if !loop[s] {
+				out = append(out, edge{b, i})
+			}
+		}
+	}
+	return out
 }
